@@ -2614,3 +2614,104 @@ func ruleR71(c *Ctx) {
 		})
 	}
 }
+
+// ---- R72: third-party generator draws are serialised ----
+
+func init() {
+	register(&Rule{ID: "R72", Title: "serialised draws: every draw from the third-party id generator happens while the wrapper's mutex is held (confirmed necessary: the generator repeats ids under concurrent draws, findings/F8)", Min: 1, Run: ruleR72})
+}
+
+func ruleR72(c *Ctx) {
+	p := c.P
+	what := "the sno generator hands out the same id to two goroutines when they draw while the sequence of a time unit rolls over (demonstrated: a few hundred duplicates per three million concurrent draws); the engine draws instance and flow ids from many goroutines, so each draw must be made under a lock"
+	for _, f := range p.Funcs {
+		if f.Pkg.PkgPath != pathID || f.Body == nil {
+			continue
+		}
+		in := info(f)
+		g := p.Graph(f)
+		inspectNoLit(f.Body, func(n ast.Node) bool {
+			call, ok := n.(*ast.CallExpr)
+			if !ok {
+				return true
+			}
+			fn := callee(in, call)
+			if fn == nil || fn.Pkg() == nil || !strings.HasSuffix(fn.Pkg().Path(), "muyo/sno") {
+				return true
+			}
+			rn := recvNamed(fn)
+			if rn == nil || rn.Obj().Name() != "Generator" || !(fn.Name() == "New" || fn.Name() == "NewWithTime") {
+				return true
+			}
+			// a Lock that dominates the call, with its release deferred or after the call on every path
+			var node ast.Node = call
+			for node != nil {
+				if _, ok := g.PointOf(node); ok {
+					break
+				}
+				node = p.Parent(node)
+			}
+			held := false
+			if node != nil {
+				cpt, _ := g.PointOf(node)
+				inspectNoLit(f.Body, func(z ast.Node) bool {
+					lc, ok := z.(*ast.CallExpr)
+					if !ok {
+						return true
+					}
+					lx, k := mutexCall(in, lc)
+					if k != "Lock" {
+						return true
+					}
+					var ln ast.Node = lc
+					for ln != nil {
+						if _, ok := g.PointOf(ln); ok {
+							break
+						}
+						ln = p.Parent(ln)
+					}
+					if ln == nil {
+						return true
+					}
+					lpt, _ := g.PointOf(ln)
+					if !g.Dominates(lpt, cpt) {
+						return true
+					}
+					// no Unlock between the Lock and the call
+					reach, _ := g.Search(lpt, false, func(pt Point, nd ast.Node) Action {
+						if nd == nil {
+							return Prune
+						}
+						if nd == node {
+							return Prune
+						}
+						if _, isDefer := nd.(*ast.DeferStmt); isDefer {
+							return Continue
+						}
+						if nodeHasCall(p, nd, func(c2 *ast.CallExpr) bool {
+							ux, k2 := mutexCall(in, c2)
+							return k2 == "Unlock" && sameRef(in, ux, lx)
+						}) {
+							// an Unlock that can be reached before the call: does the call still follow it?
+							if ok2, _ := g.Search(pt, false, func(_ Point, n3 ast.Node) Action {
+								if n3 == node {
+									return Found
+								}
+								return Continue
+							}); ok2 {
+								return Found
+							}
+						}
+						return Continue
+					})
+					if !reach {
+						held = true
+					}
+					return true
+				})
+			}
+			c.Check(held, f, call, "draw from the sno generator ("+fn.Name()+")", what, ifElse(held, "a Lock of the wrapper's mutex dominates the draw and is not released before it", "no mutex is held at the draw"))
+			return true
+		})
+	}
+}
